@@ -276,8 +276,10 @@ func (d *Dispatcher) addPeer(
 	}
 
 	// The bitfield comes from the remote peer's handshake.
-	if i, ok := b.NextSet(uint(d.torrent.NumPieces())); ok {
-		return nil, fmt.Errorf("peer bitfield has piece %d set, torrent has %d pieces", i, d.torrent.NumPieces())
+	if b.Len() > uint(d.torrent.NumPieces()) {
+		// Also without bits set beyond the torrent: later SetAll / Set calls
+		// would count pieces that do not exist.
+		return nil, fmt.Errorf("peer bitfield has %d bits, torrent has %d pieces", b.Len(), d.torrent.NumPieces())
 	}
 
 	p := newPeer(peerID, isPeerOrigin, b, messages, d.clk, pstats)
